@@ -77,6 +77,11 @@ def parseOp (ts : List String) : Option Op :=
     pure (.startfail { id := (← unesc id), dbrps := (← parseDBRPs dbrps), froms := (← parseFroms froms) })
   | ["stop", id] => do pure (.stop (← unesc id))
   | ["delete", id] => do pure (.delete (← unesc id))
+  | ["drain"] => some .drain
+  | ["swrite", db, rp, pts] => do
+    -- fed through a StreamCollector of tm.Stream(name): same forkPoint, no default-rp substitution (rp is never empty here)
+    let rp' ← unesc rp
+    if rp' == "" then none else pure (.write (← unesc db) rp' (← parsePoints pts))
   | ["write", db, rp, pts] => do pure (.write (← unesc db) (← unesc rp) (← parsePoints pts))
   | _ => none
 
@@ -101,6 +106,7 @@ structure St where
   otherOpBetween : Bool := false
   anyDelivered : Bool := false
   hung : Option String := none     -- a call into the real code did not return
+  drained : Bool := false          -- Drain was called: WritePoints is closed for good
 
 def addBr (st : St) (b : String) : St :=
   if st.branches.contains b then st else { st with branches := b :: st.branches }
@@ -150,7 +156,8 @@ def noteOp (st : St) (op : Op) : St :=
   match op with
   | .start d =>
     if d.dbrps.isEmpty then addBr st "start-no-dbrps" else
-    if st.running.contains d.id then addBr st "start-executing-refused" else
+    if st.model.isLive d.id then addBr st "start-live-refused" else
+    let st := if (st.model.tasks d.id).isSome then addBr st "start-of-ended-execution" else st
     let st := addBr st (if st.everStarted.contains d.id then "start-again" else "start-first")
     let st := if d.keys.eraseDups.length < d.keys.length then addBr st "start-duplicate-keys" else st
     let st := if d.froms.any (·.name == "") && d.froms.any (·.name != "") then addBr st "start-exact+wild" else st
@@ -160,7 +167,7 @@ def noteOp (st : St) (op : Op) : St :=
     st
   | .startfail d =>
     if d.dbrps.isEmpty then addBr st "start-no-dbrps" else
-    if st.running.contains d.id then addBr st "start-executing-refused" else
+    if st.model.isLive d.id then addBr st "start-live-refused" else
     let st := addBr st "startfail"
     if d.keys.any (fun k => !(st.model.forks k).isEmpty) then addBr st "startfail-on-shared-key" else st
   | .stop id =>
@@ -169,13 +176,14 @@ def noteOp (st : St) (op : Op) : St :=
   | .delete id =>
     let st := if (st.running.filter (· != id)).length ≥ 1 && st.running.contains id then { st with otherOpBetween := true } else st
     addBr st (if st.running.contains id then "delete-running" else "delete-idle")
-  | .write db rp pts => noteWrite st db rp pts
+  | .drain => addBr st (if st.running.isEmpty then "drain-idle" else "drain-running")
+  | .write db rp pts => noteWrite (if st.drained then addBr st "write-through-stream-after-drain" else st) db rp pts
 
 def expectObs (st : St) (op : Op) : String :=
   match op with
-  | .start d => if d.dbrps.isEmpty then "err:nodbrp" else if (st.model.tasks d.id).isSome then "err:executing" else "ok"
+  | .start d => if d.dbrps.isEmpty then "err:nodbrp" else if st.model.isLive d.id then "err:executing" else "ok"
   | .startfail d =>
-    if d.dbrps.isEmpty then "err:nodbrp" else if (st.model.tasks d.id).isSome then "err:executing" else "err:snapshot"
+    if d.dbrps.isEmpty then "err:nodbrp" else if st.model.isLive d.id then "err:executing" else "err:snapshot"
   | _ => if st.model.sentOnClosed then "panic" else "ok"
 
 def judge (_id : String) (lines : Array String) : Verdict := Id.run do
@@ -226,6 +234,13 @@ def judge (_id : String) (lines : Array String) : Verdict := Id.run do
         let pts := ",".intercalate (merged.map (fun (r : RawPoint) =>
           s!"{r.id}|{esc r.name}|{if r.pass.isEmpty then "-" else ";".intercalate (r.pass.map toString)}|0|%"))
         opT := ["write", db, rp, pts]
+    | ["write", _, _, _] =>
+      if st.drained then
+        -- WritePoints after Drain: ErrTaskMasterClosed, nothing is written
+        st := addBr st "write-after-drain-refused"
+        if obs != ["err:closed"] && st.hung.isNone then
+          st := { st with hung := some s!"write after drain: model err:closed observed {" ".intercalate obs}" }
+        if obs != ["ok"] then continue
     | ["race", "check", _] =>
       if obs != ["0"] then return .specfail "no-data-race" s!"the Go race detector reported {" ".intercalate obs} data race(s) in the routing path"
       st := addBr st "race-detector-clean"
@@ -269,15 +284,19 @@ def judge (_id : String) (lines : Array String) : Verdict := Id.run do
           -- judged after the sinks (a violated spec has priority over a broken tie)
           if st.hung.isNone then st := { st with hung := some s!"{" ".intercalate (opT.take 2)}: model {want} observed {" ".intercalate obs}" }
         let running := match op with
-          | .start d => if d.dbrps.isEmpty || st.running.contains d.id then st.running else d.id :: st.running
+          | .start d => if d.dbrps.isEmpty || st.model.isLive d.id then st.running else d.id :: st.running.filter (· != d.id)
           | .startfail _ => st.running
+          | .drain => []
           | .stop id => st.running.filter (· != id)
           | .delete id => st.running.filter (· != id)
           | .write _ _ _ => st.running
         let ever := match op with
           | .start d => if d.dbrps.isEmpty || st.everStarted.contains d.id then st.everStarted else d.id :: st.everStarted
           | _ => st.everStarted
-        st := { st with model := model', hist := op :: st.hist, running := running, everStarted := ever }
+        let drained := match op with
+          | .drain => true
+          | _ => st.drained
+        st := { st with model := model', hist := op :: st.hist, running := running, everStarted := ever, drained := drained }
       | none => return .badop l
   -- non-trivial: something was delivered AND (the two-key case occurred, or another task was started/stopped while one was running)
   if let some h := st.hung then return .mismatch s!"implementation and model differ: {h}"
